@@ -211,6 +211,59 @@ def openTunnelDyn (w : World) (id : ConnIdent) (req : Req) (ts : TunnelState) (l
 def openTunnel (w : World) (id : ConnIdent) (req : Req) (ts : TunnelState) : Outcome :=
   openTunnelDyn w id req ts .none
 
+/-! ## Updates of the mapping record (whole-record read-modify-write)
+
+`conncode.Service.{RecordMappingUsage, RevokeMapping}`, `PortMappingRepo.{UpdatePortMappingStats,
+UpdatePortMappingStatus}` (internal/cloud/services/conncode/activation.go, internal/cloud/repos/mapping_repository.go):
+each reads the whole record, changes some fields and writes the whole record back. -/
+
+/-- What an update does to the copy it read (on the fields the open-tunnel decision looks at). -/
+inductive Update
+  /-- `RecordMappingUsage`: sets `LastActive` only -/
+  | usage
+  /-- `UpdatePortMappingStats`: sets `TrafficStats` only -/
+  | stats
+  /-- `UpdatePortMappingStatus status` -/
+  | status (s : String)
+  /-- `RevokeMapping` → `PortMapping.Revoke`: `IsRevoked = true`, `Status = inactive` -/
+  | revoke
+deriving DecidableEq, Repr
+
+def Update.apply : Update → PortMapping → PortMapping
+  | .usage, m => m
+  | .stats, m => m
+  | .status s, m => { m with Status := s }
+  | .revoke, m => { m with IsRevoked := true, Status := Gen.models.MappingStatusInactive }
+
+/-- Repaired code: every update holds `repos.LockPortMapping(id)` from its read to its write, so updates of one
+record take effect one after the other, in some order. -/
+def runSerial (us : List Update) (m : PortMapping) : PortMapping :=
+  us.foldl (fun r u => u.apply r) m
+
+/-- One step of an update thread under the code as found (no lock): read the record into a private copy, or write
+the changed private copy back. -/
+inductive RmwStep
+  | read (thread : Nat)
+  | write (thread : Nat)
+deriving DecidableEq, Repr
+
+structure RmwCfg where
+  record : PortMapping
+  /-- the private copy each thread holds (by thread index) -/
+  copies : List (Nat × PortMapping)
+deriving Repr
+
+def RmwCfg.step (threads : List Update) (c : RmwCfg) : RmwStep → RmwCfg
+  | .read t => { c with copies := (t, c.record) :: c.copies.filter (fun p => p.1 != t) }
+  | .write t =>
+    match threads[t]?, c.copies.find? (fun p => p.1 == t) with
+    | some u, some p => { c with record := u.apply p.2 }
+    | _, _ => c
+
+/-- As found: any interleaving of the threads' reads and writes. -/
+def runInterleaved (threads : List Update) (sched : List RmwStep) (m : PortMapping) : PortMapping :=
+  (sched.foldl (RmwCfg.step threads) ⟨m, []⟩).record
+
 /-- The dispatcher as found (before the repair): an existing bridge or a waiting route is served *before*
 any credential check, for whatever connection names the tunnel id.  Kept to state the witnesses. -/
 def openTunnelAsFound (w : World) (id : ConnIdent) (req : Req) (ts : TunnelState) : Outcome :=
